@@ -51,6 +51,7 @@ type Exec struct {
 	md *multiState
 
 	noRoundChecks bool
+	storeHasAll   bool
 }
 
 type evlog struct {
@@ -801,7 +802,10 @@ func (e *Exec) checkStore(why string) int {
 				"store snapshot (%s) iterates as prefix %d but point reads disagree: %s", why, j, m)
 		}
 	}
-	if j == e.hist.N() {
+	// equal-content batches make the index ambiguous: "holds everything" means
+	// that the full reference content is among the matches
+	e.storeHasAll = contains(J, e.hist.N())
+	if e.storeHasAll {
 		e.drained = true
 	}
 	return j
@@ -850,9 +854,9 @@ func (e *Exec) drain() bool {
 			panic(abortRun{})
 		}
 		e.verifyMode(true)
-		j := e.checkStore("drain")
+		e.checkStore("drain")
 		e.verifyMode(false)
-		if j == e.hist.N() {
+		if e.storeHasAll {
 			e.drained = true
 			e.gaugesSettle()
 			return true
@@ -884,7 +888,13 @@ func (e *Exec) reopen(op Op) {
 	e.closeAllHandlesIf(true)
 	e.closeColl()
 	e.closeStore()
-	simrt.Quiesce(20000, 0)
+	if !op.Flag {
+		simrt.Quiesce(20000, 0)
+	} else {
+		// reopen at once: asynchronous work of the closed store (the
+		// unlinking of superseded files) may still be in flight
+		e.probe("reopen-without-settling")
+	}
 	o := e.opts
 	if op.O != nil {
 		o = *op.O
@@ -940,7 +950,9 @@ func (e *Exec) afterReopen(wasDrained, gaugesZero bool, why string) {
 	e.hist.ResetTo(e.hist.Models[j])
 	e.lb = e.hist.N()
 	e.drained = true
-	e.history = nil
+	// the walkable history lives in the file and survives a reopen; only the
+	// new Store object's counters start from zero
+	e.histPersists, e.histCompactions = 0, 0
 	e.lastCompactions, e.lastPartial = 0, 0
 	simrt.Note("reopen-ok", uint64(j))
 }
